@@ -3,6 +3,7 @@ families decide which property.  Drivers generate cases TLC did not enumerate (l
 instances, boundary grids, the repository's examples) in the same case format; they never judge."""
 import json, os, itertools, copy
 import pipeline
+import service
 
 UNIT = 256
 Q = UNIT // 4
@@ -452,6 +453,11 @@ def twins_omission(obs):
     return out
 
 
+# ---------------------------------------------------------------- HTTP service session (C20)
+def drv_service(tier, rng):
+    return [[c] for c in service.catalogue(tier, rng)]
+
+
 def nt_ties(o):
     """non-trivial for ranking shape: at least two entries and at least one tie or two levels"""
     r = o.get('resp', {}).get('result', [])
@@ -506,6 +512,12 @@ FAMILIES = {
         'mode': 'decide', 'trace': 'Trace_Decide', 'drivers': [drv_pipeline],
         'second_pass': twins_omission, 'second_rel': {'rel': 'perm', 'p': 'C15'},
     },
+    'service': {
+        'mc': 'MC_Service', 'mc_cfg': {'quick': 'MC_Service_quick.cfg', 'thorough': 'MC_Service_thorough.cfg'},
+        'mc_extra': [('MC_Service_live.cfg', None), ('MC_Service_dev_unguarded.cfg', 'Survives'), ('MC_Service_dev_sharediter.cfg', 'Isolation')],
+        'mode': 'serve', 'server': True, 'trace': 'Trace_Service', 'trace_workers': 1,
+        'trace_states': lambda n: n + 1, 'drivers': [drv_service],
+    },
     'c09': {
         'mode': 'decide', 'trace': 'Trace_Decide', 'drivers': [drv_c09],
     },
@@ -547,6 +559,8 @@ def nt_pipeline(o):
 
 
 PROPS = {
+    'C20': {'families': ['service'], 'nontrivial': lambda o: o['case'].get('expect') in ('reject', 'any'),
+            'rule': 'cases = valid requests of all methods, every documented constraint violated singly, malformed / mistyped / mutated bodies, sent as one session to the real server process; non-trivial = request that is not a plain valid one; distinct by body'},
     'C09': {'families': ['c09', 'pipeline'], 'nontrivial': nt_pipeline,
             'rule': 'non-trivial = library-path decision in which at least one bias fired (reports and handed-on states exist to be compared); distinct by request'},
     'C08': {'families': ['c08', 'pipeline'], 'nontrivial': lambda o: len(o['case']['req'].get('biases', [])) >= 1 and o.get('status') == 200,
